@@ -194,7 +194,7 @@ theorem doSetMode_cases (s : Sys) (b : Bool) (live' : Table) (h : setMode b s.li
   simp only [h]
   by_cases hg : s.gen = 0
   · simp [hg]
-  · cases hd : s.done <;> simp [hg, hd]
+  · cases s.done <;> simp [hg]
 
 theorem doSetMode_error (s : Sys) (b : Bool) (e : Err) (h : setMode b s.live = .error e) :
     doSetMode s b = (s, .error e) := by
@@ -284,7 +284,7 @@ theorem length_filter_split {α} (p : α → Bool) (l : List α) :
     (l.filter (fun a => !p a)).length + (l.filter p).length = l.length := by
   induction l with
   | nil => rfl
-  | cons a l ih => cases h : p a <;> simp [List.filter_cons, h] <;> omega
+  | cons a l ih => cases h : p a <;> simp [h] <;> omega
 
 def total (s : Sys) : Nat := s.sleepers.length + s.woken.length
 
